@@ -47,11 +47,11 @@ Proof. exact StackBoundProofs.no_write_outside_stack_variant. Qed.
 Print Assumptions no_write_outside_stack_variant.
 
 (* Write-first (pinned) tree: every opcode EXCEPT MARK, DUP, ALLOC, RECORD_UNPACK and
-   BUILD_IN{read = 12}. *)
+   BUILD_IN{lib_math_read} (= 12, regenerated from front/libmath.h). *)
 Theorem no_write_outside_stack_partial :
   forall i fault delta S sp,
     ~ In (r_op i) [BYTECODE_MARK; BYTECODE_DUP; BYTECODE_ALLOC; BYTECODE_RECORD_UNPACK] ->
-    ~ (r_op i = BYTECODE_BUILD_IN /\ r_w0 i = 12) ->
+    ~ (r_op i = BYTECODE_BUILD_IN /\ r_w0 i = lib_math_read) ->
     -1 <= sp < S ->
     no_underflow sp (plan_pinned i fault delta) = true ->
     shape_delta_ok (shape_at i fault delta) = true ->
@@ -69,7 +69,7 @@ Theorem no_write_outside_stack_refuted :
   exec_writes 10 9 (plan_pinned (ri BYTECODE_DUP 1) false 1) = OobWrite 10 /\
   exec_writes 5 (-1) (plan_pinned (ri BYTECODE_ALLOC 30) false 30) = OobWrite 5 /\
   exec_writes 10 8 (plan_pinned (ri BYTECODE_RECORD_UNPACK 3) false 2) = OobWrite 10 /\
-  exec_writes 10 9 (plan_pinned (ri BYTECODE_BUILD_IN 12) false 1) = OobWrite 10.
+  exec_writes 10 9 (plan_pinned (ri BYTECODE_BUILD_IN lib_math_read) false 1) = OobWrite 10.
 Proof. exact StackBoundProofs.no_write_outside_stack_refuted. Qed.
 Print Assumptions no_write_outside_stack_refuted.
 
@@ -79,7 +79,7 @@ Theorem witnesses_checked_report_limit :
   exec_writes 10 9 (plan_checked (ri BYTECODE_DUP 1) false 1) = LimitReported /\
   exec_writes 5 (-1) (plan_checked (ri BYTECODE_ALLOC 30) false 30) = LimitReported /\
   exec_writes 10 8 (plan_checked (ri BYTECODE_RECORD_UNPACK 3) false 2) = LimitReported /\
-  exec_writes 10 9 (plan_checked (ri BYTECODE_BUILD_IN 12) false 1) = LimitReported.
+  exec_writes 10 9 (plan_checked (ri BYTECODE_BUILD_IN lib_math_read) false 1) = LimitReported.
 Proof. exact StackBoundProofs.witnesses_checked_report_limit. Qed.
 Print Assumptions witnesses_checked_report_limit.
 
